@@ -16,7 +16,12 @@ for f in sorted(glob.glob('/verif/evidence/*.json')):
     d=json.load(open(f)); jsonschema.validate(d,es)
     c=d['coverage']
     assert d['level']!='proof' or c['obligations']==c['discharged'] or c.get('known_findings'), f
-jsonschema.validate(json.load(open('/verif/MANIFEST.json')), json.load(open('/root/.vp/MANIFEST.schema.json')))
+m=json.load(open('/verif/MANIFEST.json'))
+jsonschema.validate(m, json.load(open('/root/.vp/MANIFEST.schema.json')))
+for c in m['checks']:
+    d=json.load(open(c['evidence_file']))
+    assert d['level']==c['level_claimed']['category'], (c['property_id'], d['level'], c['level_claimed']['category'])
+    assert d['property_id']==c['property_id']
 print("evidence + manifest valid")
 PY
 exit $rc
